@@ -253,6 +253,10 @@ pub fn run(prop: PathProp, tier: Tier, seed: u64) -> i32 {
         c02_histories(&ctx, tier, seed);
         ctx.require("history_paths_after_problem_change");
     }
+    if prop == PathProp::C05 {
+        c05_histories(&ctx, tier, seed);
+        ctx.require("history_paths_after_step_change");
+    }
     if prop == PathProp::C01 {
         c01_histories(&ctx, tier, seed);
         ctx.require("history_paths_after_checker_change");
@@ -401,6 +405,80 @@ fn c01_histories(ctx: &Ctx, tier: Tier, seed: u64) {
                                 let mut v = h.to_json();
                                 v["property"] = json!("C01");
                                 ctx.violate(&format!("{sig}:{}:after-checker-change", h.params.kind.name()), format!("{det} [history: {}]", h.describe()), v);
+                            }
+                        }
+                    }
+                }
+            });
+            i += shards;
+        }
+        ctx.merge(b);
+    });
+}
+
+/// C05 over call histories in which the user changes the planner's public step / radius fields
+/// between calls: after a new setup every edge must respect the *current* step; without a new
+/// setup, edges created earlier may be as long as the largest step configured since the setup.
+fn c05_histories(ctx: &Ctx, tier: Tier, seed: u64) {
+    use super::hist::{run_history, Op};
+    let n = tier.pick(3_000, 100_000);
+    let shards = 64;
+    par_shards(shards, crate::util::n_threads(), |sh| {
+        let mut b = Batch::default();
+        let mut i = sh;
+        while i < n {
+            let mut r = Sm::derive(seed, &[505, i as u64]);
+            let mut h = super::c08::base_history(&mut r, i);
+            let spec = h.problems[0].spec.clone();
+            for k in 0..2 {
+                let host = *r.pick(&[Hostility::Free, Hostility::Plain]);
+                h.problems[k] = crate::world::gen_problem(&mut r, &spec, host);
+                if h.params.kind == PKind::Prm {
+                    h.problems[k].goal.radius *= 2.5;
+                }
+            }
+            let f = *r.pick(&[0.1, 0.25, 0.5, 2.0, 4.0]);
+            let n_it = 20 + r.below(300) as u64;
+            h.ops = if h.params.kind == PKind::Prm {
+                match r.below(2) {
+                    0 => vec![Op::Setup(0), Op::Construct, Op::Solve(10), Op::ScaleParams(f), Op::Setup(0), Op::Construct, Op::Solve(10)],
+                    _ => vec![Op::Setup(0), Op::Construct, Op::Solve(10), Op::ScaleParams(f), Op::SetPd(1), Op::Solve(10)],
+                }
+            } else {
+                match r.below(3) {
+                    0 => vec![Op::Setup(0), Op::Solve(n_it), Op::ScaleParams(f), Op::Setup(0), Op::Solve(n_it)],
+                    1 => vec![Op::Setup(0), Op::Solve(n_it), Op::ScaleParams(f), Op::Setup(1), Op::Solve(n_it)],
+                    _ => vec![Op::Setup(0), Op::Solve(5), Op::ScaleParams(f), Op::Solve(n_it), Op::Solve(n_it)],
+                }
+            };
+            b.evaluations += 1;
+            with_kit!(spec, K, kit => {
+                if let Ok((_, recs)) = run_history::<K>(&kit, &h, false, 3_000_000) {
+                    let Ok(sp) = kit.build() else { continue };
+                    let mut changed = false;
+                    for c in &recs {
+                        if matches!(c.op, Op::ScaleParams(_)) {
+                            changed = true;
+                        }
+                        if let Res::Path(p) = &c.res {
+                            b.count("history_paths", 1);
+                            if changed {
+                                b.count("history_paths_after_step_change", 1);
+                            }
+                            if p.len() >= 3 {
+                                b.distinct.insert(hash_path(p));
+                            }
+                            let mut pp = h.params.clone();
+                            // path_steps reads the limit from the params: give it the applicable one
+                            pp.max_distance = c.step_limit_since_setup;
+                            pp.search_radius = c.step_limit_since_setup;
+                            pp.connection_radius = c.step_limit_since_setup;
+                            let (f, worst) = path_steps(&kit, &sp, &pp, p);
+                            b.max("worst_step_minus_limit(history)", worst);
+                            for (sig, det) in f {
+                                let mut v = h.to_json();
+                                v["property"] = json!("C05");
+                                ctx.violate(&format!("{sig}:{}:after-parameter-change", h.params.kind.name()), format!("{det} [history: {}]", h.describe()), v);
                             }
                         }
                     }
